@@ -75,6 +75,11 @@ CONFIGS = {
     "listenshut": (2, 2, False, [[add(2, ln=[("a", 0)]), add(1, sd=[("p", 0)], ln=[("p", 0)]), incr(2), call("shutdown")], [incr(1), call("wait")]], 3),
     # a user wait group: the worker finishes the bars and calls Done; Wait sees the bars through their last frames
     "uwg":    (2, 2, False, [[add(1, rm=True), add(1), call("wait")], [incr(1), incr(2)]], 3, "auto", 0, True),
+    # pop mode with a queued bar: the finished predecessor hands over instead of being popped, a bar that finishes later is popped
+    # above the successor that is still running
+    "popqueue": (3, 3, True, [[add(1), add(2, after=1), add(1), incr(1), incr(3), incr(2, 2), call("wait")]], 3),
+    # finding F11: a priority change on a finished bar between its second and third terminal frame overrides the pop priority
+    "popprio": (2, 2, True, [[add(1), add(2), incr(1), call("wait")], [prio(1, 5), incr(2, 2)]], 4),
     "priopop": (2, 2, True, [[add(1), add(2), incr(1), call("wait")], [{"op": "barwait", "b": 1}, prio(1, -3), prio(2, 4), incr(2, 2)]], 4),
 }
 
@@ -100,7 +105,7 @@ def tla_op(o):
     return "[" + ", ".join("%s |-> %s" % (k, v(x)) for k, x in f.items()) + "]"
 
 
-def write_model(wd, name, extra_cfg="", spec="Spec", invariants="NoPanic NoHang NoDupInFrame TextAtMostOnce TextWritten Quiescent ErrorReportedOnce NoRenderAfterError SortedFrames ListenersBeforeWait", sim=False, cfg=None):
+def write_model(wd, name, extra_cfg="", spec="Spec", invariants="NoPanic NoHang NoDupInFrame TextAtMostOnce TextWritten Quiescent ErrorReportedOnce NoRenderAfterError SortedFrames ListenersBeforeWait PoppedOnTop", sim=False, cfg=None):
     cfg = cfg or CONFIGS[name]
     nb, q, pop, progs, ticks = cfg[:5]
     refresh = cfg[5] if len(cfg) > 5 else "auto"
